@@ -2,6 +2,7 @@ package main
 
 import (
 	"go/types"
+	"strings"
 
 	"golang.org/x/tools/go/ssa"
 )
@@ -150,4 +151,104 @@ func wholeStore(a *ssa.Alloc) ssa.Value {
 		}
 	}
 	return val
+}
+
+// BoundsAt: what is known about the integer term `key` whenever block b executes.  Besides the dominating guards
+// (GuardsAt) it joins the facts of the incoming edges: at a block with several predecessors a fact holds if it holds on
+// every incoming edge (interval hull), which is how `if !(n == 1 || n == 2) { return }` or a switch with fall-together
+// cases bound n afterwards.  Back edges are ignored only for terms that no loop can change (no phi inside the term).
+func (v *FnView) BoundsAt(b *ssa.BasicBlock, key string, init bound) bound {
+	memo := map[*ssa.BasicBlock]*bound{}
+	return v.boundsAt(b, key, init, 0, memo, map[*ssa.BasicBlock]bool{})
+}
+
+func (v *FnView) boundsAt(b *ssa.BasicBlock, key string, init bound, depth int, memo map[*ssa.BasicBlock]*bound, onStack map[*ssa.BasicBlock]bool) bound {
+	if m, ok := memo[b]; ok {
+		return *m
+	}
+	base := boundsFrom(v.GuardsAt(b), key, init)
+	if depth > 12 || onStack[b] || len(b.Preds) == 0 {
+		return base
+	}
+	loopVariant := strings.Contains(key, "phi:")
+	onStack[b] = true
+	defer delete(onStack, b)
+	var hull *bound
+	for _, p := range b.Preds {
+		if b.Dominates(p) { // back edge
+			if loopVariant {
+				return base
+			}
+			continue
+		}
+		pb := v.boundsAt(p, key, init, depth+1, memo, onStack)
+		// the edge's own condition
+		if ifi, ok := p.Instrs[len(p.Instrs)-1].(*ssa.If); ok && p.Succs[0] != p.Succs[1] {
+			edge := Atom{Cond: v.Term(ifi.Cond), Taken: p.Succs[0] == b, Instr: ifi, Fn: v.fn}
+			eb := boundsFrom([]Atom{edge}, key, pb)
+			for k := range pb.excluded {
+				eb.excluded[k] = true
+			}
+			pb = tighten(eb)
+		}
+		if hull == nil {
+			cp := pb
+			cp.excluded = map[int64]bool{}
+			for k := range pb.excluded {
+				cp.excluded[k] = true
+			}
+			hull = &cp
+			continue
+		}
+		// interval hull
+		if !(hull.hasLo && pb.hasLo) {
+			hull.hasLo = false
+		} else if pb.lo < hull.lo {
+			hull.lo = pb.lo
+		}
+		if !(hull.hasHi && pb.hasHi) {
+			hull.hasHi = false
+		} else if pb.hi > hull.hi {
+			hull.hi = pb.hi
+		}
+		for k := range hull.excluded {
+			outside := pb.hasLo && k < pb.lo || pb.hasHi && k > pb.hi
+			if !pb.excluded[k] && !outside {
+				delete(hull.excluded, k)
+			}
+		}
+	}
+	res := base
+	if hull != nil {
+		if hull.hasLo && (!res.hasLo || hull.lo > res.lo) {
+			res.lo, res.hasLo = hull.lo, true
+		}
+		if hull.hasHi && (!res.hasHi || hull.hi < res.hi) {
+			res.hi, res.hasHi = hull.hi, true
+		}
+		for k := range hull.excluded {
+			res.excluded[k] = true
+		}
+		res = tighten(res)
+	}
+	memo[b] = &res
+	return res
+}
+
+func tighten(b bound) bound {
+	if b.excluded == nil {
+		b.excluded = map[int64]bool{}
+	}
+	for changed := true; changed; {
+		changed = false
+		if b.hasLo && b.excluded[b.lo] {
+			b.lo++
+			changed = true
+		}
+		if b.hasHi && b.excluded[b.hi] {
+			b.hi--
+			changed = true
+		}
+	}
+	return b
 }
